@@ -315,44 +315,7 @@ def r4_connective_is_quantifier(ctx):
             continue
         conn, quant = want[c.name]
         qname = quant.__name__
-        # ---- codegen: the template and the member checks it is combined with
-        cg = c.methods["codegen"]
-        ctx.touch(cg)
-        rv = recv_name(cg)
-        bad = None
-        bracketed = True
-        for k in (1, 2, 3):
-            members = tuple(f"m{i}" for i in range(k))
-            # which members are value-dependent must not matter: every member's check is part of the answer
-            for deps in itertools.product((True, False), repeat=k):
-                depset = {m for m, d in zip(members, deps) if d}
-                stubs = {
-                    "generate_checking_code": lambda t: "cg:" + t,
-                    "combine": lambda tpl, lst: ("combine", tpl, tuple(lst)),
-                    "isinstance": lambda x, cl: True,
-                    "is_dependent": lambda t, depset=depset: t in depset,
-                }
-                got = Interp("Order", stubs=stubs).run(cg.node, {rv: "SELF", f"{rv}.types": members, f"{rv}.__args__": members, "types": members})
-                ok = isinstance(got, tuple) and got[:1] == ("combine",)
-                if ok:
-                    tpl, lst = got[1], got[2]
-                    core = tpl[1:-1] if tpl.startswith("(") and tpl.endswith(")") else tpl
-                    if not (tpl.startswith("(") and tpl.endswith(")")) and k > 1:
-                        bracketed = False
-                    ok = core == f" {conn} ".join(["{}"] * k) and lst == tuple("cg:" + m for m in members)
-                if not ok and bad is None:
-                    bad = (f"{k} member(s), of which {sorted(depset) or 'none'} value-dependent", got)
-        n += 1
-        ctx.ob(
-            f"{cg.key}:connective",
-            cg.loc(),
-            f"{c.name}'s emitted check joins the checks of all its members, in order, with `{conn}` (interpreted for 1, 2 and 3 members)",
-            bad is None,
-            f"{c.name}.codegen produces {bad[1] if bad else ''} for {bad[0] if bad else ''}: the generated check is not the `{conn}` of all member checks, so it disagrees with isinstance()",
-        )
-        if conn == "or":
-            n += 1
-            ctx.ob(f"{cg.key}:bracketed", cg.loc(), f"{c.name}'s emitted disjunction is bracketed (it is embedded in `and`-conjunctions by the intersection and by the per-argument guard)", bracketed and bad is None, f"{c.name}.codegen emits `A or B` without brackets: joined with ` and ` by the caller it reads `A or (B and C)`, so a method runs although one of its other value conditions is false")
+        # (the emitted check is decided by value in r15_combinator_checks_by_value)
         # ---- the two membership tests
         for mname, fn in (("__instancecheck__", "isinstance"), ("__is_supertype__", "subclasscheck")):
             m = c.methods.get(mname)
@@ -384,7 +347,7 @@ def r4_connective_is_quantifier(ctx):
                 bad is None,
                 f"with member tests {bad[0] if bad else ''} {c.name}.{mname} answers {bad[1] if bad else ''}: a value/class matches the {c.name.lower()} although it matches {'no arm' if qname == 'any' else 'only some arms'} (or the reverse)",
             )
-    ctx.require(n >= 6, "expected union and intersection, each with codegen / __instancecheck__ / __is_supertype__")
+    ctx.require(n >= 4, "expected union and intersection, each with __instancecheck__ / __is_supertype__")
 
 
 def r5(ctx):
@@ -406,6 +369,7 @@ def r7(ctx):
 
 
 RULES = [
+    ("C11.R15", "P1", lambda ctx: r15_combinator_checks_by_value(ctx), "the union's and the intersection's emitted checks accept exactly the instances, also with value-dependent members of different bounds (interpreted)"),
     ("C11.R14", "P1", lambda ctx: r14_combination_is_compositional(ctx), "combining emitted checks keeps every member's substitutions, at any nesting depth (interpreted)"),
     ("C11.R7", "P1", r7, "value-dependence is recognised at any nesting depth"),
     ("C11.R1", "P1", r1_sibling_footprints, "siblings consult the same parameters"),
@@ -485,3 +449,160 @@ def r14_combination_is_compositional(ctx):
         not problems,
         "; ".join(problems[:2]) + ": in a nested & / | combination one member's check is evaluated with another member's parameters, so dispatch accepts or rejects values isinstance() decides otherwise",
     )
+
+
+def r15_combinator_checks_by_value(ctx):
+    """The emitted checks of the union and the intersection, decided on values: `codegen` is interpreted together with
+    the carrier class, the combiner and the per-type check generator (all the package's source); members are plain
+    classes and value-dependent types (a bound plus a value test whose own emitted code tests the value only, as the
+    real ones do).  The emitted check is evaluated on every value whose class the combinator admits (the only values
+    it is ever evaluated on) and must accept exactly the instances: of some member / of all members."""
+    import itertools
+
+    from ..metainterp import HostFn, HostInterp, Instance, Raised, Record
+
+    repo = ctx.repo
+    cgcls = [k for k in repo.all_classes() if k.name == "CodeGen"]
+    if len(cgcls) != 1:
+        raise AnalysisError("the code-generation carrier class was not found")
+    K = cgcls[0]
+    cgm = repo.raw_methods(K)
+
+    class V:
+        def __init__(self, cls, val=None):
+            self.cls, self.val = cls, val
+
+        def __repr__(self):
+            return f"{self.cls}({self.val!r})"
+
+    class Dep:
+        def __init__(self, bound, p):
+            self.bound, self.p = bound, p
+
+        def __repr__(self):
+            return f"Dependent[{self.bound}, == {self.p!r}]"
+
+    SUPER = {"MyInt": "int"}  # the class tags' hierarchy
+
+    def issub(c, t):
+        while c is not None:
+            if c == t:
+                return True
+            c = SUPER.get(c)
+        return False
+
+    def class_ok(v, t):
+        if isinstance(t, Instance):  # a nested combination
+            return want[t._cls_name](class_ok(v, m) for m in t.types)
+        return issub(v.cls, t.bound if isinstance(t, Dep) else t)
+
+    def inst(v, t):
+        if t is Dep:
+            return isinstance(v, Dep)  # "is this member a value-dependent type"
+        if not isinstance(v, V):
+            return False
+        if isinstance(t, Instance):
+            return want[t._cls_name](inst(v, m) for m in t.types)
+        if isinstance(t, Dep):
+            return issub(v.cls, t.bound) and v.val == t.p
+        return issub(v.cls, t)
+
+    raw = {c.name: repo.raw_methods(c) for c in repo.all_classes() if c.name in ("Union", "Intersection") and "codegen" in c.methods}
+
+    def nested(kind, *members):
+        o = Instance(kind, raw[kind])
+        o.__dict__.update(types=tuple(members), __args__=tuple(members))
+        return o
+
+    want = {"Union": any, "Intersection": all}
+    pool = [V("int", 0), V("int", 1), V("MyInt", 0), V("MyInt", 1), V("str", 0), V("str", "a"), V("A", None), V("float", 0)]
+    member_sets = {
+        "Union": [
+            ("int", "str"),
+            (Dep("int", 0), "str"),
+            (Dep("int", 0), Dep("str", "a")),
+            ("A", Dep("str", "a"), Dep("int", 1)),
+            # alternatives that are themselves combinations: a class and a value condition each
+            (nested("Intersection", "int", Dep("int", 0)), nested("Intersection", "str", Dep("str", "a"))),
+            (nested("Intersection", Dep("int", 0), Dep("int", 0)), Dep("str", "a")),
+            # a plain member narrower than the dependent member's bound
+            (nested("Intersection", "MyInt", Dep("int", 0)), nested("Intersection", "int", Dep("int", 1))),
+        ],
+        "Intersection": [
+            ("int", "int"),
+            ("int", Dep("int", 0)),
+            (Dep("int", 0), Dep("int", 0)),
+            (nested("Union", Dep("int", 0), Dep("str", "a")), nested("Union", "int", "str")),
+        ],
+    }
+    n = 0
+    for c in repo.all_classes():
+        if c.name not in want or "codegen" not in c.methods:
+            continue
+        quant = want[c.name]
+        cg = c.methods["codegen"]
+        ctx.touch(cg)
+        funcs = {nm: g.node for nm, g in K.module.funcs.items() if g.parent is None and g.cls is None and not g.node.decorator_list}
+        problem = None
+        cases = 0
+        for members in member_sets[c.name]:
+            me = Record(types=members, __args__=members)
+            hi = HostInterp({}, me, {}, globals_env={"isinstance": inst, A.dependent_meta(repo).name: Dep}, classes={K.name: cgm}, functions=funcs)
+            hi.host_types = hi.host_types + (V, Dep)
+
+            def dep_codegen(t, hi=hi):
+                o = Instance(K.name, cgm)
+                hi.call_function(cgm["__init__"], [o, "({arg}.val == {p})"], {"p": t.p}, {})
+                return o
+
+            def arm(ts):
+                for t in ts:
+                    if isinstance(t, Dep):
+                        t.codegen = HostFn(lambda t=t: dep_codegen(t))
+                    elif isinstance(t, Instance):
+                        arm(t.types)
+
+            arm(members)
+            try:
+                res = hi.call_function(cg.node, [me], {}, {})
+            except (AnalysisError, Raised) as e:
+                raise AnalysisError(f"{cg.key}: not interpretable: {e}")
+            tpl, subs_ = getattr(res, "template", None), getattr(res, "substitutions", None)
+            if not isinstance(tpl, str) or not isinstance(subs_, dict):
+                raise AnalysisError(f"{cg.key}: codegen did not build a template with substitutions")
+            try:
+                text = tpl.format(arg="ARG", **{k: f"SUB_{k}" for k in subs_})
+                expr = ast.parse(text, mode="eval").body
+            except (KeyError, IndexError, SyntaxError, ValueError) as e:
+                problem = problem or f"the emitted template `{tpl}` cannot be instantiated: {e}"
+                continue
+            for v in pool:
+                admitted = quant(class_ok(v, t) for t in members)
+                if not admitted:
+                    continue
+                cases += 1
+                hv = HostInterp({}, Record(), {}, globals_env={"isinstance": inst}, classes={}, functions={})
+                hv.host_types = hv.host_types + (V, Dep)
+                try:
+                    got = bool(hv.ev(expr, {"ARG": v, **{f"SUB_{k}": val for k, val in subs_.items()}}))
+                except (AnalysisError, Raised) as e:
+                    got = f"error ({e})"
+                ref = quant(inst(v, t) for t in members)
+                if got != ref and problem is None:
+                    problem = f"for the value {v} against {c.name}[{', '.join(map(str, members))}] the emitted check `{text}` gives {got}, isinstance gives {ref}"
+                # the check is embedded in `and`-conjunctions by its users (per-argument guards, intersections)
+                try:
+                    emb = bool(hv.ev(ast.parse(f"OTHER and {text}", mode="eval").body, {"OTHER": False, "ARG": v, **{f"SUB_{k}": val for k, val in subs_.items()}}))
+                except (AnalysisError, Raised):
+                    emb = False
+                if emb and problem is None:
+                    problem = f"joined as `<other check> and {text}` the emitted check holds for {v} although the other check is false (the disjunction is not bracketed)"
+        n += 1
+        ctx.ob(
+            f"{cg.key}:by-value",
+            cg.loc(),
+            f"{c.name}'s emitted check accepts exactly the values that are instances of {'some member' if quant is any else 'every member'}, also when members are value-dependent types with different bounds ({cases} values of admitted classes interpreted)",
+            problem is None,
+            (problem or "") + ": a member's value condition is evaluated on (and may accept) a value that is not an instance of that member's bound - the method runs on an argument its annotation excludes, or the user's condition raises on a foreign value",
+        )
+    ctx.require(n >= 2, "expected the union and the intersection")
